@@ -4,7 +4,7 @@
    Part 1 (split_range itself) is Numeric/ProofsSplit1.v; the float-level statement and the
    base-256 refutation are in Numeric/ProofsSplit.v. *)
 From Coq Require Import ZArith Lia ZifyBool List Bool.
-From Verif Require Import Common.Bytes Numeric.Model Numeric.ProofsSplit1.
+From Verif Require Import Common.Bytes Numeric.Model Numeric.Proofs Numeric.ProofsSplit1.
 Import ListNotations.
 Local Open Scope Z_scope.
 
@@ -321,19 +321,19 @@ Proof.
 Qed.
 
 Theorem range_candidates_total lo hi : in_int64 lo = true -> in_int64 hi = true ->
-  exists cands, range_candidates lo hi 4 = Some cands /\ (length cands <= 466)%nat.
+  exists cands, range_candidates lo hi 4 = Some cands /\ (length cands <= 464)%nat.
 Proof.
   intros H1 H2. destruct (split_range_total lo hi H1 H2) as (vrs & Hs).
   eexists. split; [apply (range_candidates_eq lo hi vrs H1 H2 Hs)|].
   assert (Hlen : Z.of_nat (length (concat (map vr_termlist vrs))) = sum_count vrs).
   { apply length_termlists. intros v Hv.
     destruct (split_ranges_wf lo hi vrs H1 H2 Hs v Hv) as (_ & _ & _ & _ & _ & _ & _ & Hc). lia. }
-  destruct (split_range_cases lo hi vrs H1 H2 Hs) as [[_ ->]|[_ (_ & _ & _ & Hsum & _)]].
-  - cbn. lia.
-  - lia.
+  destruct (Z_lt_le_dec hi lo) as [Hlt|Hle].
+  - rewrite (split_empty lo hi 4 Hlt) in Hs. injection Hs as <-. cbn. lia.
+  - destruct (range_span lo hi vrs H1 H2 Hle Hs) as (_ & _ & _ & _ & _ & Hsum & _). lia.
 Qed.
 
-(* the bound of [range_candidates_total] is within 2 of the truth: 464 candidates *)
+(* the bound of [range_candidates_total] is attained *)
 Example range_candidates_464 :
   option_map (@length bytes) (range_candidates (min_int64 + 1) (max_int64 - 1) 4) = Some 464%nat.
 Proof. vm_compute. reflexivity. Qed.
